@@ -63,6 +63,20 @@ class DongleDev:
         return self.owner.on_read()
 
 
+def close_and_wait(inst, limit=2.0):
+    """_SharedRadioInstance.close() only QUEUES the STOP command; wait (bounded) until the shared-radio thread has taken the
+    instance out of its table, so that "closed, then somebody opens" really is that order"""
+    import cflib.crtp.radiodriver as rd
+    iid = inst._instance_id
+    inst.close()
+    t0 = time.time()
+    while time.time() - t0 < limit:
+        srs = [sr for sr in rd.RadioManager._radios if sr is not None]
+        if not srs or iid not in srs[0]._rsp_queues or srs[0]._rsp_queues.get(iid) is not inst._rsp_queue:
+            return
+        time.sleep(0.0003)
+
+
 class _Poison:
     def __getitem__(self, k):
         raise SystemExit
@@ -144,13 +158,19 @@ class SharedSim(base.Sim):
         for f in FOREIGN:
             self.air[f] = base.Peer()
         self.scans, self.b_sent, self.instB = [], [], None
+        self.others = {}
+        self.status = []
         self._undo = _install(self.dev)
+        for k in self.case.get('pre', []):           # instances that were opened on the dongle BEFORE this link
+            self.others[k] = rd.RadioManager.open(0)
         self.tap = InstTap(rd.RadioManager.open(0), self)
 
     def _cleanup(self):
         try:
             if self.instB is not None:
                 self.instB.close()
+            for inst in self.others.values():
+                inst.close()
         finally:
             self._undo()
 
@@ -188,6 +208,18 @@ class SharedSim(base.Sim):
                 self.instB.set_address(SET_B[2])
             a = self.instB.send_packet(tuple(e[1]))
             self.b_sent.append((list(e[1]), bool(a is not None and a.ack)))
+        elif e[0] == 'OP':                       # somebody opens another instance on the dongle (and keeps it)
+            if e[1] not in self.others:
+                self.others[e[1]] = rd.RadioManager.open(0)
+        elif e[0] == 'CL':                       # ... closes it, in any order relative to the opening
+            inst = self.others.pop(e[1], None)
+            if inst is not None:
+                close_and_wait(inst)
+            elif e[1] == 'b' and self.instB is not None:
+                close_and_wait(self.instB)
+                self.instB = None
+        elif e[0] == 'GS':                       # RadioDriver.get_status(): opens an instance, reads the version, closes it
+            self.status.append(rd.RadioDriver().get_status())
         else:
             raise ValueError(e)
 
@@ -236,7 +268,7 @@ def run_commands(cmds, air=()):
     owner.dev = dev
     undo = _install(dev)
     insts = {}
-    seen, results, sends = [], [], []
+    seen, results, sends, ievs = [], [], [], []
     try:
         for c in cmds:
             k = c[1]
@@ -251,6 +283,7 @@ def run_commands(cmds, air=()):
                     seen.append(['reset'])
                 n0 = len(dev.log)
                 insts[k] = rd.RadioManager.open(0)
+                ievs.append(['open'])
                 del dev.log[n0:]
             elif k not in insts:
                 continue
@@ -278,8 +311,10 @@ def run_commands(cmds, air=()):
                 insts[k].set_arc(c[2])
                 seen.append(c)
             elif c[0] == 'close':
-                insts.pop(k).close()
+                ievs.append(['close', insts[k]._instance_id])
+                close_and_wait(insts.pop(k))
                 seen.append(c)
+        results.append({'ievs': ievs, 'open_ids': [i._instance_id for i in insts.values()]})
         # make sure everything queued has been processed before reading the log
         for k in list(insts):
             insts[k].scan_channels(0, -1, (0xff,))
@@ -307,6 +342,7 @@ class LinkSim(SharedSim):
         self.air = self.pair.air
         self.from_A = False
         self.scans, self.b_sent, self.instB = [], [], None
+        self.others, self.status = {}, []
         self._undo = lambda: None
         self.tap = InstTap(self.rd.RadioManager.open(0), self)
 
@@ -393,7 +429,7 @@ class Pair:
                     continue
                 sim.go.release()
                 steps += 1
-                if not self.arrived.acquire(timeout=20) or steps > 200000:
+                if not self.arrived.acquire(timeout=8) or steps > 200000:
                     self.hung = True
                     for s in self.sims.values():
                         s.thread._sp = True
